@@ -5,7 +5,7 @@
    its two products; it returns (Result, final x, ghost) or a panic. *)
 From Coq Require Import List Arith ZArith Floats Reals.
 From OV Require Import Base.Panic Base.Arith Model.Vector Model.Matrix Model.Sparse Model.Iter Inst.FloatInst Inst.QcInst
-  Proofs.Iter Proofs.IterField Proofs.IterInst Proofs.IterR.
+  Proofs.Iter Proofs.IterField Proofs.IterInst Proofs.IterR Proofs.IterRows.
 Import ListNotations.
 
 (* ---- any arithmetic (floats included), any products, any sizes ---- *)
@@ -142,6 +142,30 @@ Proof.
   split; [exact exq_lin|].
   repeat split; apply (@ok_k_witness SAQ); vm_compute; reflexivity.
 Qed.
+
+(* ---- the hypothesis LinOp discharged for EVERY square matrix of EVERY order, given as its list of rows
+        ([rmul rs v] = the code's dot product of every row with v; [rprod rs x] = the textbook product):
+        Ok k means that the TRUE residual b - M x passes the code's test.  No hypothesis on the transposed
+        product is needed. ---- *)
+Theorem ok_means_solved_rows : forall (A : SArith), FieldLaws (SA A) ->
+  forall n (rs : list (list (T (SA A)))) (mulAT : list (T (SA A)) -> res (list (T (SA A)))) cols sv b x0 max tol k x g,
+  length rs = n -> Forall (fun r => length r = n) rs ->
+  run (rmul rs) mulAT n cols sv b x0 max tol = Ok (IOk k, x, g) ->
+  exists resid, div (norm2 (zipw sub b (rprod rs x))) (nz (norm2 b)) = Ok resid /\
+                (leb resid tol = true \/ ltb resid tol = true).
+Proof. intros A FL n rs mulAT cols sv b x0 max tol k x g Hn Hrs H. exact (run_ok_solved_rows FL n rs mulAT cols sv b x0 max tol k x g Hn Hrs H). Qed.
+Check ok_means_solved_rows : forall (A : SArith), FieldLaws (SA A) ->
+  forall n (rs : list (list (T (SA A)))) (mulAT : list (T (SA A)) -> res (list (T (SA A)))) cols sv b x0 max tol k x g,
+  length rs = n -> Forall (fun r => length r = n) rs ->
+  run (rmul rs) mulAT n cols sv b x0 max tol = Ok (IOk k, x, g) ->
+  exists resid, div (norm2 (zipw sub b (rprod rs x))) (nz (norm2 b)) = Ok resid /\
+                (leb resid tol = true \/ ltb resid tol = true).
+Print Assumptions ok_means_solved_rows.
+
+Example ok_means_solved_rows_nonvacuous : exists x g,
+  @run SAQ (@rmul AQ [[q 4 1; q 1 1]; [q 1 1; q 3 1]]) (@rmul AQ [[q 4 1; q 1 1]; [q 1 1; q 3 1]]) 2 2 BiCGSTAB
+       [q 1 1; q 2 1] [q 2 1; q 1 1] 10 (q 1 1000) = Ok (IOk 2, x, g).
+Proof. apply (@ok_k_witness SAQ). vm_compute. reflexivity. Qed.
 
 (* ---- the real numbers with the standard square root (SAR, Proofs/IterR.v): the same statement as an
         inequality between reals:  ||b - A x||_2 <= tol * ||b||'.  Uses the four standard-library axioms of R. ---- *)
